@@ -1,7 +1,7 @@
 #!/bin/sh
-# runs the thorough tier of every property sequentially; log in /verif/build/thorough_all.txt
+# usage: [PROPS="C01 C02"] [LOG=name] thorough_all.sh : runs the thorough tier of the listed properties sequentially
 cd /verif
-LOG=/verif/build/thorough_all.txt
+LOG=/verif/build/${LOG:-thorough_all}.txt
 : > $LOG
 for p in ${PROPS:-C01 C03 C04 C05 C06 C07 C08 C09 C10 C11 C12 C13 C14 C15 C16 C17 C18 C19 C20 C02}; do
   s=$(date +%s)
